@@ -32,7 +32,7 @@ func init() {
 		MinEvals:    floor(15000, 400000),
 		MinDistinct: floor(1500, 30000),
 		RequiredCells: func(tier string) []string {
-			cells := []string{"history/full-depleted-full", "deny/empty/-", "allow/audience=unset", "allow/audience=third", "hook"}
+			cells := []string{"history/full-depleted-full", "deny/empty/-", "allow/audience=unset", "allow/audience=third", "hook", "long-chain"}
 			for _, rule := range []string{"unloadable", "link", "subject"} {
 				for _, pos := range []string{"first", "middle", "last"} {
 					cells = append(cells, "deny/"+rule+"/"+pos)
@@ -182,6 +182,10 @@ func runC01(w *mon.W) {
 		n := r.IntN(maxN + 1)
 		if it%8 == 0 {
 			n = 1 + (it/8)%maxN // make sure every length occurs
+		}
+		if it%10 == 3 {
+			n = 9 + r.IntN(32) // beyond any small loop bound / fixed-size buffer
+			w.Cover("long-chain")
 		}
 		s := chain.Conformant(r, n, 10)
 		nd := 0
